@@ -500,11 +500,15 @@ func (c *ctx) genMutations() {
 	var roots []string
 	for _, s := range sites {
 		for _, o := range expand(s.origin, map[string]bool{}) {
-			roots = append(roots, fmt.Sprintf("(%s, %s, %s)", leanStr(s.fn), leanStr(s.method), leanStr(o)))
+			kind, detail := o, ""
+			if i := strings.Index(o, ":"); i >= 0 {
+				kind, detail = o[:i], o[i+1:]
+			}
+			roots = append(roots, fmt.Sprintf("(%s, %s, %s, %s)", leanStr(s.fn), leanStr(s.method), leanStr(kind), leanStr(detail)))
 		}
 	}
 	sort.Strings(roots)
-	fmt.Fprintf(&sb, "/-- every call of a mutating roaring.Bitmap method with the origin of the bitmap it mutates,\n    parameters traced back through the package's call sites:\n    (function, method, origin) with origin = fresh | field:Type.field | entry-param:func#index | other:… -/\ndef mutatedRoots : List (String × String × String) := [%s]\n\n", strings.Join(uniqStrings(roots), ",\n  "))
+	fmt.Fprintf(&sb, "/-- every call of a mutating roaring.Bitmap method with the origin of the bitmap it mutates,\n    parameters traced back through the package's call sites:\n    (function, method, origin kind, origin detail) with kind = fresh | field (Type.field) |\n    entry-param (func#index) | receiver | other -/\ndef mutatedRoots : List (String × String × String × String) := [%s]\n\n", strings.Join(uniqStrings(roots), ",\n  "))
 	sb.WriteString("end Ice.Gen.Mutations\n")
 	c.write("Mutations.lean", sb.String())
 }
